@@ -123,3 +123,37 @@ func vhC10Hist(kind, op1, op2, op3, op4 int) {
 	vassert(int64(len(in.execs)) == vhFired(in, ref[0].id, "act")+vhFired(in, ref[1].id, "act"), "nothing-else-fires")
 	vreach("end")
 }
+
+// VH_C10_trigger: a rule addressed by id through a "trigger!" event (how the cron fires
+// scheduled rules) obeys the disabled flag like any other rule: disabled it does not run,
+// enabled again it does. sched 1: the rule is a scheduled rule; 0: a when-rule whose pattern
+// also matches the trigger event (a when-rule addressed by id is still matched against the
+// event).
+func VH_C10_trigger(kind, sched int) {
+	env, in := vhDispatchEnv(kind)
+	var r Map
+	if sched == 1 {
+		r = Map{"schedule": "+1h", "action": vhAction("act")}
+	} else {
+		r = vhRule(map[string]interface{}{"trigger!": "?x"}, "act")
+	}
+	_, err := env.loc.AddRule(env.ctx, "r1", r)
+	vassume(err == nil)
+	trigger := Map{"trigger!": "r1"}
+	_, cond := env.loc.ProcessEvent(env.ctx, trigger)
+	vassert(cond == nil, "event-complete")
+	vassert(len(in.execs) == 1, "fires-iff-live-enabled-matching")
+	if sched == 1 {
+		// a one-shot scheduled rule is deleted after its run: add it again
+		_, err = env.loc.AddRule(env.ctx, "r1", r)
+		vassume(err == nil)
+	}
+	vassert(env.loc.EnableRule(env.ctx, "r1", false) == nil, "enablerule-succeeds")
+	_, cond = env.loc.ProcessEvent(env.ctx, trigger)
+	vassert(len(in.execs) == 1, "disabled-rule-does-not-fire-when-triggered-by-id")
+	vassert(env.loc.EnableRule(env.ctx, "r1", true) == nil, "enablerule-succeeds")
+	_, cond = env.loc.ProcessEvent(env.ctx, trigger)
+	vassert(cond == nil, "event-complete")
+	vassert(len(in.execs) == 2, "fires-iff-live-enabled-matching")
+	vreach("end")
+}
